@@ -122,6 +122,7 @@ class Obligation:
 class Exec:
     """symbolic executor; `lib` maps call names to handlers handler(ex, st, node, args, kwargs)"""
     trust_models = False
+    check_dtypes = False
     def __init__(self, lib=None, calls=None, mode='T', solver=None, loop_handler=None, fname=''):
         self.lib = dict(lib or {})
         self.calls = dict(calls or {})
